@@ -152,6 +152,10 @@ def forall_int(lo, hi, p):
     return all(p(j) for j in range(lo, hi))
 
 
+def forall_key(d, p):
+    return all(p(k) for k in d)
+
+
 def exists_int(lo, hi, p):
     return any(p(j) for j in range(lo, hi))
 
